@@ -297,7 +297,7 @@ def run(ctx):
                             f.write(line if line.endswith("\n") else line + "\n")
             runs.append(("corpus", "-replay %s" % path))
         if quick:
-            runs.append(("fresh", "-seed %d -n 120 -nraw 300 -nall 24 -nbig 2 -exh 3 -nlife 40 -nnet 12 -nhand 16" % ctx.seed))
+            runs.append(("fresh", "-seed %d -n 120 -nraw 300 -nall 24 -nbig 1 -exh 3 -nlife 40 -nnet 12 -nhand 16" % ctx.seed))
         else:
             runs.append(("fresh", "-seed %d -n 1500 -nraw 6000 -nall 600 -nbig 6 -bigcuts full -exh 5 -nlife 600 -nnet 150 -nhand 300 -nburst 3" % ctx.seed))
 
